@@ -67,11 +67,14 @@ def verus_route(pid, tier):
         uf = pl.assemble(u, metas[u])
         ufs[u] = uf
         jobs.append(((u, "root"), uf.path, "root"))
-        jobs.append(((u, "nl"), uf.path, "nl"))
+        for k in uf.nl_modes:
+            jobs.append(((u, k), uf.path, k))
         jobs.append(((u, "canary"), uf.path, "canary"))
     # big units first
     jobs.sort(key=lambda j: -os.path.getsize(j[1]))
     res = pl.run_many(jobs)
+    for u, uf in ufs.items():
+        res[(u, "nl")] = pl.merge_results([res[(u, k)] for k in uf.nl_modes])
     obs = []
     info = dict(units={}, expand_s=round(t_exp, 1))
     for u, uf in ufs.items():
